@@ -1,6 +1,8 @@
 package main
 
 import (
+	"fmt"
+	"bytes"
 	"log/slog"
 	"math/rand"
 	"regexp"
@@ -80,6 +82,9 @@ func build1005(typ int, station, itrf, ign1 uint64, x int64, ign2 uint64, y int6
 	return append(w.Buf, trailing...)
 }
 
+var c05HeldText func() string
+var c05HeldWas string
+var c05Before []byte
 var c05Shared = make([]byte, 96)
 var c05Calls = 0
 
@@ -97,12 +102,14 @@ func c05Call(w *tr.Writer, frame []byte, dec int, lv slog.Level, path, cls strin
 				n := copy(c05Shared, frame)
 				frame = c05Shared[:n]
 			}
+			c05Before = append([]byte{}, frame...)
 			if dec == 1005 {
 				m5, err = type1005.GetMessage(frame, lv)
 			} else {
 				m6, err = type1006.GetMessage(frame, lv)
 			}
 		} else {
+			c05Before = append([]byte{}, frame...)
 			h := handler.New(time.Date(2023, 5, 10, 0, 0, 0, 0, time.UTC), lv)
 			m, e := h.GetMessage(frame)
 			err = e
@@ -143,6 +150,19 @@ func c05Call(w *tr.Writer, frame []byte, dec int, lv slog.Level, path, cls strin
 		ev.Tokens = parseTokens(text)
 		if w.N%50 == 0 {
 			ev.Text = text
+		}
+		// history: the message decoded by the PREVIOUS call is still held by its user: it reads as it did then
+		if c05HeldText != nil && c05HeldText() != c05HeldWas {
+			ev.Err = "an earlier decoded message changed when this one was decoded"
+		}
+		if m5 != nil {
+			c05HeldText, c05HeldWas = func() string { return fmt.Sprint(*m5, m5.String()) }, fmt.Sprint(*m5, text)
+		} else {
+			c05HeldText, c05HeldWas = func() string { return fmt.Sprint(*m6, m6.String()) }, fmt.Sprint(*m6, text)
+		}
+		// and decoding only reads the frame
+		if !bytes.Equal(frame, c05Before) {
+			ev.Err = "the frame handed to the decoder was modified"
 		}
 	})
 	w.Emit(ev)
